@@ -1,6 +1,5 @@
 """C36 — memory safety / undefined behaviour under the default safety directives: compile-time witness for the MIN / -1 and
-zero-division guards of the C integer division nodes, dead branches in the shift-sanitising templates, argument order of the
-bounds/wraparound flags, scoping discipline of the safety directives."""
+zero-division guards of the C integer division nodes, dead branches in the shift-sanitising templates, scoping discipline of the safety directives."""
 import ast, itertools, re
 
 from ..core import Rule, AnalysisError, node_src
@@ -10,7 +9,7 @@ from ..rules import pC32 as E
 from ..rules import pC36 as W
 from ..rules.pC32 import Obj, Fresh, Call, Str, NOTFOUND, Evaluator
 from ..rules.pC15 import tempita_tokens
-from ..rules.iface import rule_I6, const_strs, local_env, LOADERS
+from ..rules.iface import const_strs, local_env, LOADERS
 from ..rules.scoped import rule_V3_attr
 
 ID = 'C36'
@@ -18,14 +17,13 @@ TECHNIQUE = ('W1 compile-time witness: the guard text emitted by DivNode.generat
              'domain (operator x explicit-signedness), instantiated for every signed C integer type of rank >= int with the operands (MIN, -1), (MIN, 1), (7, -1), (x, 0) and '
              'handed to `clang -fsyntax-only` as _Static_assert (clang as parser / constant evaluator; nothing is compiled to code or run); clang JSON AST of the specialised '
              'CMath.c helper for unguarded signed / and %; P2 dead-branch analysis of the Tempita conditions against the dispatch dictionary of the template; '
-             'I6 mutual-swap check; save/restore dataflow for directive scopes; receiver analysis of the safety-directive reads')
+             'save/restore dataflow for directive scopes; receiver analysis of the safety-directive reads')
 DECIDES = ('C36-W1: for every operator handled by DivNode and its subclasses (/, //, %) and T in the signed integer types of rank >= int taken from PyrexTypes.rank_to_type_name: '
            'C leaves T_MIN / -1 and T_MIN % -1 undefined (C11 6.5.5p6), so either the guard the generator emits before the operation is true for (T_MIN, (T)-1) on the '
            'host data model — and false for (T_MIN, 1) and (7, -1) — or the C helper performing the operation (section loaded by the node, specialised for T) contains no '
            'signed / or % on its divisor parameter that is not under a comparison of that parameter with -1; the zero-division guard is true for divisor 0 and false for 1. '
            'C36-P2: in the PyLongBinop / PyLongCompare / PyFloatBinop templates (Lshift/Rshift sanitising lives there) every string literal the template variables op / c_op / order '
            'are compared with belongs to the value domain of that variable (keys / values of the template\'s own dispatch dictionary, order values passed by Optimize.py). '
-           'C36-I6: no emitted call of a helper that takes boundscheck / wraparound flags passes two name-carrying arguments mutually swapped. '
            'C36-SCOPE: CompilerDirectivesMixin.apply_directives saves, sets, yields, restores; every phase method of CompilerDirectivesNode runs self.body inside '
            'apply_directives on the scope object the phase reads (env for analyse_*, code.globalstate for generate_*/annotate, both for generate_function_definitions); '
            'every read of boundscheck / wraparound / initializedcheck / nonecheck in Cython/Compiler is made on a scoped mapping (<scope parameter>.directives, '
@@ -33,11 +31,13 @@ DECIDES = ('C36-W1: for every operator handled by DivNode and its subclasses (/,
            'C36-V3: visitors that rebind directives / current_directives restore the saved value.')
 NOT_DECIDED = ('everything a sanitizer would observe at run time: arithmetic inside the C helpers (overflow of i + size, shifts inside __Pyx_PyLong_* beyond the dead-branch check), '
                'that the guard is emitted before the operation is evaluated, polarity of each directive read (C15/C16 decide it for the index paths), none checks (off by default), '
-               'use-after-free and alignment. Cross data models (ILP32, LLP64) are evaluated and reported as information only, because only the host result can be confirmed by running.')
+               'use-after-free and alignment. DESIGN clause (b) "I6 for bounds/wraparound flags" is NOT armed here: on the emitted calls that carry these flags the generic '
+               'mutual-swap rule has 3 resolvable sites and cannot see a swap (C parameter has_cstart vs Python name has_c_start), while C15-FLAGS / C15-SLICE / C16-TPL decide '
+               'the name-aligned order of exactly these constructs with their own normalisation. Cross data models (ILP32, LLP64) are evaluated and reported as information only, because only the host result can be confirmed by running.')
 ASSUMPTIONS = ['operands of a C integer division node have been coerced to the result type, so the operand type equals the result type in the witness',
                'the host clang target has the data model of the platform the extension is built on']
 EXEMPT = {
-    ('C36-P2', 'Optimize.c:PyLongBinop:op==LShift'):
+    ('C36-P2', "Optimize.c:PyLongBinop:op==LShift@op=='LShift'orop=='Rshift'"):
         "typo for 'Lshift' in the long-long branch: the guarded statement `if ((!negative_shift_works) && lla < 0) goto fallback;` is dead only where negative_shift_works == 0; "
         'on every GCC/Clang/MSVC x86/ARM target it is a no-op, and the Rshift half of the condition is live (DESIGN.md section 7)',
 }
@@ -56,21 +56,25 @@ MUTATIONS = [
     ('Cython/Utility/Optimize.c', "PyLongBinop: `{{if op == 'Rshift' or op == 'Lshift'}}` -> `'Rshift' or op == 'Lshft'`", 'C36-P2 Optimize.c:PyLongBinop:op==Lshft'),
     ('Cython/Utility/Optimize.c', "PyLongBinop: `{{elif order == 'CObj' and c_op in '+-|^>><<'}}` -> `'+-|^><'`", 'C36-P2 c_op substring'),
     ('Cython/Utility/Optimize.c', "PyLongBinop: `order == 'CObj'` -> `order == 'Cobj'`", 'C36-P2 order'),
-    ('Cython/Compiler/ExprNodes.py', 'extra_index_params: swap wraparound / boundscheck in the returned tuple', 'C36-I6'),
     ('Cython/Compiler/Nodes.py', 'apply_directives: delete `obj.directives = old`', 'C36-SCOPE apply_directives'),
     ('Cython/Compiler/Nodes.py', 'CompilerDirectivesNode.generate_execution_code: `with self.apply_directives(code.globalstate)` dropped', 'C36-SCOPE CompilerDirectivesNode.generate_execution_code'),
     ('Cython/Compiler/Nodes.py', 'CompilerDirectivesNode.generate_function_definitions: only apply_directives(env)', 'C36-SCOPE CompilerDirectivesNode.generate_function_definitions'),
     ('Cython/Compiler/ExprNodes.py', "`code.globalstate.directives['boundscheck']` -> `Options.get_directive_defaults()['boundscheck']`", 'C36-SCOPE read'),
     ('Cython/Compiler/ExprNodes.py', 'put_buffer_lookup_code(..., directives=code.globalstate.directives) -> directives=self.directives', 'C36-SCOPE read (caller of Buffer.put_buffer_lookup_code)'),
     ('Cython/Compiler/Visitor.py', 'visit_CompilerDirectivesMixin: delete `self.current_directives = old`', 'C36-V3'),
+    ('Cython/Compiler/Nodes.py', 'apply_directives: `obj.directives = old` -> `obj.directives = self.directives`', 'C36-SCOPE apply_directives'),
+    ('Cython/Compiler/Nodes.py', 'CompilerDirectivesNode.analyse_expressions: body analysed after (outside) the with block', 'C36-SCOPE CompilerDirectivesNode.analyse_expressions'),
+    ('Cython/Compiler/ExprNodes.py', 'MISSED (clause not armed, see NOT_DECIDED): SliceIndexNode GetSlice call with {has_c_start:d} / {has_c_stop:d} swapped — reported by C15-SLICE', '-'),
     ('Cython/Utility/CMath.c', 'FIX variant: ModInt `if (b == -1) return 0;` before `a %% b`', 'C36-W1 mod:* go silent'),
     ('Cython/Compiler/ExprNodes.py', 'FIX variant: guard `sizeof(%s) >= sizeof(int)` and __Pyx_UNARY_NEG_WOULD_OVERFLOW generalised', 'C36-W1 div:int goes silent'),
 ]
-SILENT_EDITS = [
-    'generate_div_warning_code: rename locals, turn the %-format of the guard into an f-string, reorder the conjuncts',
+SILENT_EDITS = [     # behaviour-preserving edits tried on the scratch copy: all 8 added no finding
+    'generate_div_warning_code: rename locals, turn the %-format of the guard into an f-string, reorder the conjuncts; zero test written `0 == (b)`',
     'Optimize.c: reorder rows of the c_op dictionary; `op == \'Rshift\' or op == \'Lshift\'` -> `op in (\'Lshift\', \'Rshift\')`',
     'apply_directives: `old, obj.directives = obj.directives, self.directives` ... try/finally around the yield',
-    'MemoryView.generate_buffer_slice_code: `d = directives` local alias before the reads',
+    'MemoryView.generate_buffer_slice_code: `dmap = directives` local alias before the reads; BufferIndexNode: `gs = code.globalstate; gs.directives[...]`',
+    'CompilerDirectivesNode.generate_function_definitions: two nested with statements instead of one',
+    'CMath.c DivInt: renamed / additional locals',
 ]
 # Genuine defects on the unchanged tree reported by C36-W1 (both confirmed by running a compiled module outside /repo):
 #  1. div:int  — DESIGN.md section 6 #12 (K1): `def div(int a, int b): return a // b`; div(-2**31, -1) -> SIGFPE (exit 136), default directives, LP64.
@@ -314,7 +318,7 @@ def rule_w1(ctx):
 # ====================================================================================== C36-P2
 def rule_p2(ctx):
     ix = ctx.index
-    r = Rule('C36-P2', 'no dead branch in the integer binop templates (shift sanitising): literals compared with op / c_op / order belong to the variable\'s value domain', floor=40)
+    r = Rule('C36-P2', 'no dead branch in the integer binop templates (shift sanitising): literals compared with op / c_op / order belong to the variable\'s value domain', floor=80)
     m = ix.mod('Optimize')
     fn = m.functions.get('optimise_numeric_binop')
     if fn is None:
@@ -364,7 +368,7 @@ def rule_p2(ctx):
                     ok = lit in dom
                 else:
                     ok = W.decompose(lit, dom) is not None
-                report(sec_name, var, form, lit, ok, dom, csrc)
+                report(sec_name, var, form, lit, ok, dom, csrc, src)
         return n, domains
 
     total = 0
@@ -374,9 +378,9 @@ def rule_p2(ctx):
         if not secs:
             raise AnalysisError('utility section %s::%s not found' % (fil, name))
         for typ, s in sorted(secs.items()):
-            def report(sec_name, var, form, lit, ok, dom, csrc, typ=typ, s=s):
-                key = '%s:%s:%s%s%s' % (fil, sec_name, var, '==' if form != 'substr' else '~', lit)
-                r.inst(key + '@' + csrc, sample='%s.%s: %s' % (sec_name, typ, csrc), nontrivial=True)
+            def report(sec_name, var, form, lit, ok, dom, csrc, src, typ=typ, s=s):
+                key = '%s:%s:%s%s%s@%s' % (fil, sec_name, var, '==' if form != 'substr' else '~', lit, re.sub(r'\s+', '', src))
+                r.inst(key, sample='%s.%s: %s' % (sec_name, typ, csrc), nontrivial=True)
                 if not ok:
                     seen_bad.setdefault(key, []).append((s, csrc, dom, form))
             n, domains = check_section(name, s.raw or s.text, report)
@@ -386,15 +390,16 @@ def rule_p2(ctx):
     for key, hits in sorted(seen_bad.items()):
         s, csrc, dom, form = hits[0]
         var = key.split(':')[2].split('=')[0].split('~')[0]
+        lit = key.split('@')[0].split('==')[-1].split('~')[-1]
         r.violate(key, 'Cython/Utility/' + fil, s.line,
                   'template %s::%s tests `%s`%s, but %r is not %s of %s (values: %s): the branch is dead (or always taken) for every instantiation, so the code it guards — '
                   'e.g. the clamp / re-check that keeps a shift inside the width of the type — is never (or always) generated'
-                  % (fil, s.name, csrc, ' (%d occurrences)' % len(hits) if len(hits) > 1 else '', key.split('==')[-1].split('~')[-1],
+                  % (fil, s.name, csrc, ' (%d occurrences)' % len(hits) if len(hits) > 1 else '', lit,
                      'a concatenation of values' if form == 'substr' else 'a value', var, ', '.join(sorted(dom))))
     # positive control
     got = []
     check_section('X', "{{py: c_op = {'Rshift': '>>', 'Lshift': '<<'}[op] }}\n{{if op == 'RShift'}}x{{endif}}{{if c_op in '>><'}}y{{endif}}{{if order == 'CObj'}}z{{endif}}",
-                  lambda sec, var, form, lit, ok, dom, csrc: got.append((var, lit, ok)))
+                  lambda sec, var, form, lit, ok, dom, csrc, src: got.append((var, lit, ok)))
     r.positive_control(('op', 'RShift', False) in got and ('c_op', '>><', False) in got and ('order', 'CObj', True) in got, "op == 'RShift', c_op in '>><'")
     return r
 
@@ -477,9 +482,22 @@ def _phase_scopes(fn):
     return wrapped, params, body_inside, body_calls
 
 
+def _aliases(fn):
+    """local name -> access path it is bound to (names assigned exactly once from a Name/Attribute)."""
+    count, val = {}, {}
+    for n in walk_no_nested(fn):
+        if isinstance(n, (ast.Assign, ast.AugAssign, ast.AnnAssign, ast.For, ast.With, ast.NamedExpr)):
+            for x in ast.walk(n):
+                if isinstance(x, ast.Name) and isinstance(x.ctx, ast.Store):
+                    count[x.id] = count.get(x.id, 0) + 1
+        if isinstance(n, ast.Assign) and len(n.targets) == 1 and isinstance(n.targets[0], ast.Name) and isinstance(n.value, (ast.Attribute, ast.Name)):
+            val[n.targets[0].id] = n.value
+    return {k: v for k, v in val.items() if count.get(k) == 1}
+
+
 def rule_scope(ctx):
     ix = ctx.index
-    r = Rule('C36-SCOPE', 'the safety directives are read from a scoped mapping, and the scope is applied around / restored after every compiler-directives block', floor=20)
+    r = Rule('C36-SCOPE', 'the safety directives are read from a scoped mapping, and the scope is applied around / restored after every compiler-directives block', floor=23)
     nodes = ix.mod('Nodes')
     mix = ix.cls('Nodes', 'CompilerDirectivesMixin')
     ap = mix.methods.get('apply_directives')
@@ -523,11 +541,23 @@ def rule_scope(ctx):
     def receiver_kind(recv, fn, owner, aliases):
         """'scoped' | ('param', name) | 'unscoped:<text>'"""
         params = [a.arg for a in fn.args.posonlyargs + fn.args.args + fn.args.kwonlyargs]
+
+        def resolve(e, depth=0):
+            # follow single-assignment local aliases inside the access path (gs = code.globalstate; d = gs.directives)
+            if depth > 4:
+                return e
+            if isinstance(e, ast.Name) and e.id in aliases and e.id not in params:
+                return resolve(aliases[e.id], depth + 1)
+            if isinstance(e, ast.Attribute):
+                return ast.Attribute(value=resolve(e.value, depth + 1), attr=e.attr, ctx=ast.Load())
+            return e
+        recv = resolve(recv)
         if isinstance(recv, ast.Name):
-            if recv.id in aliases:
-                return receiver_kind(aliases[recv.id], fn, owner, {})
             if recv.id in params:
                 return ('param', recv.id)
+            if any(isinstance(x, ast.Name) and x.id == recv.id and isinstance(x.ctx, ast.Store) for x in walk_no_nested(fn)):
+                raise AnalysisError('%s: the directives mapping is read through the local `%s`, which is bound more than once or to a computed value; '
+                                    'the scope rule cannot resolve it' % (fn.name, recv.id))
             return 'unscoped:' + recv.id
         if isinstance(recv, ast.Attribute) and recv.attr in ('directives', 'current_directives'):
             base = recv.value
@@ -548,10 +578,7 @@ def rule_scope(ctx):
         if not any(s in m.src for s in SAFETY):
             continue
         for qn, owner, fn in ix.functions_of(m):
-            aliases = {}
-            for n in walk_no_nested(fn):
-                if isinstance(n, ast.Assign) and len(n.targets) == 1 and isinstance(n.targets[0], ast.Name) and isinstance(n.value, (ast.Attribute, ast.Name)):
-                    aliases[n.targets[0].id] = n.value
+            aliases = _aliases(fn)
             for n in walk_no_nested(fn):
                 key_node, recv = None, None
                 if isinstance(n, ast.Subscript) and isinstance(n.slice, ast.Constant) and n.slice.value in SAFETY and isinstance(n.ctx, ast.Load):
@@ -582,10 +609,7 @@ def rule_scope(ctx):
             if not m.name.startswith('Cython.Compiler') or fname not in m.src:
                 continue
             for qn, owner, fn in ix.functions_of(m):
-                aliases = {}
-                for n in walk_no_nested(fn):
-                    if isinstance(n, ast.Assign) and len(n.targets) == 1 and isinstance(n.targets[0], ast.Name) and isinstance(n.value, (ast.Attribute, ast.Name)):
-                        aliases[n.targets[0].id] = n.value
+                aliases = _aliases(fn)
                 for n in walk_no_nested(fn):
                     if not (isinstance(n, ast.Call) and (isinstance(n.func, ast.Attribute) and n.func.attr == fname or isinstance(n.func, ast.Name) and n.func.id == fname)):
                         continue
@@ -616,22 +640,5 @@ def rule_scope(ctx):
     return r
 
 
-def _flag_helpers(ctx):
-    names = set()
-    for name, ds in ctx.cat.decls.items():
-        for d in ds:
-            pn = [p for p in (d.param_names() if d.kind != 'macro' else [x.strip() for x in (d.params or [])]) if p]
-            if any(p in ('boundscheck', 'wraparound') for p in pn):
-                names.add(name)
-    if len(names) < 5:
-        raise AnalysisError('only %d C helpers with boundscheck/wraparound parameters found' % len(names))
-    return names
-
-
 def run(ctx):
-    flagged = _flag_helpers(ctx)
-    pats = [re.compile('^' + re.sub(r'\\\{\\\{.*?\\\}\\\}|%\\\(\w+\\\)s', r'\\w+', re.escape(n)) + '$') for n in flagged]
-    return [rule_w1(ctx), rule_p2(ctx),
-            rule_I6(ctx, floor=3, rid='C36-I6', names=lambda n: n in flagged or any(p.match(n) for p in pats)),
-            rule_scope(ctx),
-            rule_V3_attr(ctx, rid='C36-V3')]
+    return [rule_w1(ctx), rule_p2(ctx), rule_scope(ctx), rule_V3_attr(ctx, rid='C36-V3')]
